@@ -189,7 +189,8 @@ func (ra *ResponseAdaptor) compress(resp *httpprot.Response) string {
 		resp.HTTPHeader().Set(keyContentLength, strconv.Itoa(len(data)))
 	}
 
-	resp.HTTPHeader().Set(keyContentEncoding, "gzip")
+	// gzip is applied on top of the codings the body already carries.
+	resp.HTTPHeader().Add(keyContentEncoding, "gzip")
 	return ""
 }
 
